@@ -110,3 +110,167 @@ Proof.
   rewrite !andb_false_r. unfold parse_uint. destruct (dec z) eqn:E; [congruence|]. rewrite Hv.
   replace (z <? 2 ^ 64) with true by (symmetry; apply Z.ltb_lt; lia). reflexivity.
 Qed.
+
+(* ======== B: each printed atom re-lexes to exactly one token ======== *)
+
+Definition can_start (p : Z) : Prop := can_start_signed_after p = true.
+
+(* the text a, followed by a delimiter, adds exactly the tokens tks (and the delimiter's own token) *)
+Definition lexes_to (a : list Z) (tks : list token) : Prop :=
+  forall s t p d, delim d -> can_start p -> view s LNormal [] t p ->
+  exists s', lex_all s (a ++ [d]) = LOk s' /\ view s' LNormal [] (t ++ tks ++ dtok d) d.
+
+Lemma digit_plain : forall c, digit c -> plain c.
+Proof.
+  intros c H. unfold digit in H. unfold plain, special_runes, mem_z.
+  repeat match goal with |- context [?k =? c] => rewrite (proj2 (Z.eqb_neq k c)) by lia end. reflexivity.
+Qed.
+
+Lemma plain_atom_lexes : forall a tok, Forall plain a -> a <> [] -> decode_atom a = Some tok -> lexes_to a [tok].
+Proof.
+  intros a tok F Ha Hd s t p d Hdl _ V. destruct (lex_plain_atom a s t p d tok F Ha Hd Hdl V) as [s' [E V']].
+  exists s'. split; [exact E|]. exact V'.
+Qed.
+
+Lemma Forall_digit_plain : forall ds, Forall digit ds -> Forall plain ds.
+Proof. intros ds F. eapply Forall_impl; [|exact F]. apply digit_plain. Qed.
+
+Lemma neg_number_lexes : forall c ds tok, digit c -> Forall plain ds ->
+  decode_atom (45 :: c :: ds) = Some tok -> lexes_to (45 :: c :: ds) [tok].
+Proof.
+  intros c ds tok Hc F Hd s t p d Hdl Hcan V.
+  destruct (step_minus s t p V) as [s1 [E1 [V1 [P1 P2]]]].
+  destruct (step_minus_digit s1 t c p V1 P1 P2 Hcan (dec_yes_neg c [] Hc (Forall_nil _))) as [s2 [E2 V2]].
+  destruct (run_plain ds s2 [45; c] t c F V2) as [s3 [E3 V3]].
+  destruct (step_delim s3 ([45; c] ++ ds) t _ d tok Hdl ltac:(discriminate) Hd V3) as [s4 [E4 V4]].
+  exists s4. split; [|exact V4].
+  change ((45 :: c :: ds) ++ [d]) with (45 :: c :: (ds ++ [d])). cbn [lex_all]. rewrite E1, E2.
+  rewrite lex_all_app, E3. cbn [lex_all]. rewrite E4. reflexivity.
+Qed.
+
+Theorem int_lexes : forall z, - 2 ^ 63 <= z < 2 ^ 63 -> lexes_to (itoa z) [mkTok TDecimal (itoa z)].
+Proof.
+  intros z Hz. unfold itoa. destruct (Z.ltb_spec z 0) as [Hn|Hp].
+  - destruct (dec_cons (- z) ltac:(lia)) as [c [ds [E [Hc F]]]]. rewrite E.
+    apply neg_number_lexes; auto using Forall_digit_plain. apply decode_dec_neg; assumption.
+  - destruct (dec_cons z ltac:(lia)) as [c [ds [E [Hc F]]]]. rewrite E.
+    apply plain_atom_lexes; [apply Forall_digit_plain; constructor; assumption|discriminate|apply decode_dec; assumption].
+Qed.
+
+Theorem uint_lexes : forall z, 0 <= z < 2 ^ 64 -> lexes_to (utoa z) [mkTok TUint64 (utoa z)].
+Proof.
+  intros z Hz. unfold utoa. destruct (dec_cons z ltac:(lia)) as [c [ds [E [Hc F]]]]. rewrite E.
+  apply plain_atom_lexes.
+  - rewrite <- app_comm_cons. constructor; [apply digit_plain; assumption|]. apply Forall_app. split; [apply Forall_digit_plain; assumption|].
+    repeat constructor.
+  - discriminate.
+  - rewrite <- app_comm_cons. apply decode_uint; assumption.
+Qed.
+
+Lemma word_lexes : forall a tok, (forallb (fun c => negb (mem_z c special_runes)) a = true) -> a <> [] ->
+  decode_atom a = Some tok -> lexes_to a [tok].
+Proof.
+  intros a tok H Ha Hd. apply plain_atom_lexes; auto.
+  apply Forall_forall. intros x Hx. rewrite forallb_forall in H. specialize (H x Hx).
+  unfold plain. destruct (mem_z x special_runes); [discriminate|reflexivity].
+Qed.
+
+Theorem bool_lexes : forall b, lexes_to (if b then str_true else str_false) [mkTok TBool (if b then str_true else str_false)].
+Proof. intros [|]; apply word_lexes; try discriminate; vm_compute; reflexivity. Qed.
+
+Theorem nil_lexes : lexes_to str_nil [mkTok TSymbol str_nil].
+Proof. apply word_lexes; try discriminate; vm_compute; reflexivity. Qed.
+
+Theorem backslash_lexes : lexes_to [92] [mkTok TBackslash []].
+Proof. apply word_lexes; try discriminate; vm_compute; reflexivity. Qed.
+
+(* symbols: the names that DecodeAtom classifies as one symbol and that contain no rune the
+   lexer treats specially (operators, quotes, brackets, blanks) *)
+Definition sym_ok (n : list Z) : Prop :=
+  n <> [] /\ Forall plain n /\ decode_atom n = Some (mkTok TSymbol n) /\ n <> str_nil.
+
+Theorem sym_lexes : forall n, sym_ok n -> lexes_to n [mkTok TSymbol n].
+Proof. intros n [H1 [H2 [H3 _]]]. apply plain_atom_lexes; assumption. Qed.
+
+Section WithIsPrint.
+Variable is_print : Z -> bool.
+
+(* the runes whose quoted form uses only escapes the reader knows *)
+Definition rune_ok (q : Z) (c : Z) : Prop :=
+  0 <= c <= 1114111 /\ (c = q \/ c = 92 \/ is_print c = true \/ c = 7 \/ c = 10 \/ c = 13 \/ c = 9).
+
+Lemma esc_in_rune : forall c s b t p, rune_ok 39 c -> view s LRuneLit b t p ->
+  exists s1 q, lex_all s (escaped_rune is_print 39 c) = LOk s1 /\ view s1 LRuneLit (b ++ [c]) t q.
+Proof.
+  intros c s b t p [Hr Hc] V. unfold escaped_rune.
+  destruct (Z.eq_dec c 39) as [E|N1]; [subst c|].
+  { destruct (step_rune_esc s b t p 39 39 eq_refl V) as [s1 [E1 V1]]. exists s1, 39. split; assumption. }
+  destruct (Z.eq_dec c 92) as [E|N2]; [subst c|].
+  { destruct (step_rune_esc s b t p 92 92 eq_refl V) as [s1 [E1 V1]]. exists s1, 92. split; assumption. }
+  replace ((c =? 39) || (c =? 92)) with false by (symmetry; apply orb_false_iff; split; apply Z.eqb_neq; assumption).
+  destruct (is_print c) eqn:Ep.
+  { destruct (step_rune_raw s b t p c N2 N1 V) as [s1 [E1 V1]]. exists s1, c. split; [cbn [lex_all]; rewrite E1; reflexivity|assumption]. }
+  destruct Hc as [H|[H|[H|[H|[H|[H|H]]]]]]; try congruence; subst c; cbn [Z.eqb Pos.eqb orb].
+  - destruct (step_rune_esc s b t p 97 7 eq_refl V) as [s1 [E1 V1]]. exists s1, 97. split; assumption.
+  - destruct (step_rune_esc s b t p 110 10 eq_refl V) as [s1 [E1 V1]]. exists s1, 110. split; assumption.
+  - destruct (step_rune_esc s b t p 114 13 eq_refl V) as [s1 [E1 V1]]. exists s1, 114. split; assumption.
+  - destruct (step_rune_esc s b t p 116 9 eq_refl V) as [s1 [E1 V1]]. exists s1, 116. split; assumption.
+Qed.
+
+Theorem char_lexes : forall c, rune_ok 39 c -> lexes_to (quote_rune is_print c) [mkTok TChar [c]].
+Proof.
+  intros c Hc s t p d Hdl _ V. unfold quote_rune.
+  destruct (step_rune_open s t p V) as [s1 [E1 V1]].
+  destruct (esc_in_rune c s1 [39] t 39 Hc V1) as [s2 [q [E2 V2]]].
+  destruct (step_rune_close s2 _ t q (mkTok TChar [c]) (decode_char_atom c (proj1 Hc)) V2) as [s3 [E3 V3]].
+  destruct (step_delim0 s3 _ 39 d Hdl V3) as [s4 [E4 V4]].
+  exists s4. split; [|rewrite <- app_assoc in V4; exact V4].
+  cbn [app lex_all]. rewrite E1. rewrite <- app_assoc. rewrite lex_all_app, E2. cbn [app lex_all]. rewrite E3, E4. reflexivity.
+Qed.
+
+Lemma esc_in_str : forall c s b t p, rune_ok 34 c -> view s LStrLit b t p ->
+  exists s1 q, lex_all s (escaped_rune is_print 34 c) = LOk s1 /\ view s1 LStrLit (b ++ [c]) t q.
+Proof.
+  intros c s b t p [Hr Hc] V. unfold escaped_rune.
+  destruct (Z.eq_dec c 34) as [E|N1]; [subst c|].
+  { destruct (step_str_esc s b t p 34 34 eq_refl V) as [s1 [E1 V1]]. exists s1, 34. split; assumption. }
+  destruct (Z.eq_dec c 92) as [E|N2]; [subst c|].
+  { destruct (step_str_esc s b t p 92 92 eq_refl V) as [s1 [E1 V1]]. exists s1, 92. split; assumption. }
+  replace ((c =? 34) || (c =? 92)) with false by (symmetry; apply orb_false_iff; split; apply Z.eqb_neq; assumption).
+  destruct (is_print c) eqn:Ep.
+  { destruct (step_str_raw s b t p c N2 N1 V) as [s1 [E1 V1]]. exists s1, c. split; [cbn [lex_all]; rewrite E1; reflexivity|assumption]. }
+  destruct Hc as [H|[H|[H|[H|[H|[H|H]]]]]]; try congruence; subst c; cbn [Z.eqb Pos.eqb orb].
+  - destruct (step_str_esc s b t p 97 7 eq_refl V) as [s1 [E1 V1]]. exists s1, 97. split; assumption.
+  - destruct (step_str_esc s b t p 110 10 eq_refl V) as [s1 [E1 V1]]. exists s1, 110. split; assumption.
+  - destruct (step_str_esc s b t p 114 13 eq_refl V) as [s1 [E1 V1]]. exists s1, 114. split; assumption.
+  - destruct (step_str_esc s b t p 116 9 eq_refl V) as [s1 [E1 V1]]. exists s1, 116. split; assumption.
+Qed.
+
+Definition item_ok (it : sitem) : Prop := match it with Rune c => rune_ok 34 c | BadByte _ => False end.
+
+Lemma items_in_str : forall its s b t p, Forall item_ok its -> view s LStrLit b t p ->
+  exists s1 q, lex_all s (flat_map (quote_item is_print 34) its) = LOk s1 /\ view s1 LStrLit (b ++ map item_rune its) t q.
+Proof.
+  induction its as [|it its IH]; intros s b t p F V.
+  - exists s, p. split; [reflexivity|]. rewrite app_nil_r. exact V.
+  - inversion F as [|x l Hit F']; subst. destruct it as [c|bb]; [|contradiction].
+    destruct (esc_in_str c s b t p Hit V) as [s1 [q [E1 V1]]].
+    destruct (IH s1 (b ++ [c]) t q F' V1) as [s2 [q2 [E2 V2]]].
+    exists s2, q2. split.
+    + cbn [flat_map quote_item]. rewrite lex_all_app, E1. exact E2.
+    + cbn [map item_rune]. rewrite <- app_assoc in V2. exact V2.
+Qed.
+
+Theorem str_lexes : forall its, Forall item_ok its ->
+  lexes_to (quote_str is_print its) [mkTok TString (map item_rune its)].
+Proof.
+  intros its F s t p d Hdl _ V. unfold quote_str.
+  destruct (step_str_open s t p V) as [s1 [E1 V1]].
+  destruct (items_in_str its s1 [] t 34 F V1) as [s2 [q [E2 V2]]].
+  destruct (step_str_close s2 _ t q V2) as [s3 [E3 V3]].
+  destruct (step_delim0 s3 _ 34 d Hdl V3) as [s4 [E4 V4]].
+  exists s4. split; [|rewrite <- app_assoc in V4; exact V4].
+  cbn [app lex_all]. rewrite E1. rewrite <- app_assoc. rewrite lex_all_app, E2. cbn [app lex_all]. rewrite E3, E4. reflexivity.
+Qed.
+
+End WithIsPrint.
